@@ -5,6 +5,7 @@ import (
 	"bytes"
 	"context"
 	"fmt"
+	"sort"
 	"strings"
 	"sync"
 	"testing"
@@ -27,7 +28,7 @@ func TestReplay(t *testing.T) { h.Replay(t) }
 // (1) determinism of parsing
 
 type DetCase struct {
-	Src   h.Str `json:"src"`
+	Src   h.Str  `json:"src"`
 	Kind  string `json:"kind"`
 	NErrs int    `json:"nerrs,omitempty"`
 }
@@ -252,6 +253,10 @@ var templates = []string{
 	"NF { cmd = \"echo sh-\" NR \"-\" length($0) \"-\" NF; cmd | getline r; close(cmd); print \"got\", r }",
 	"NR <= 3 { system(\"echo sys-\" NR \"-\" length($0)) }",
 	"NR == 1 { print \"piped \" length($0) | \"cat\"; close(\"cat\") }",
+	// a command read with getline that also writes to its standard error, while the program goes on printing: the
+	// configuration gives Output and Error the same writer, so the child's stderr and the program's own output meet
+	// there (the order of the lines is not defined: execOnce compares them sorted)
+	"NR <= 2 { cmd = \"echo sh-err-\" NR \" >&2; echo sh-out-\" NR; cmd | getline r; print \"got\", r; print \"more\", NR; close(cmd) }",
 }
 
 var inputLines = []string{"a b c", "aab x", "12 abc 7", "boom", "", "3.5,4 5", "x y z x", "# comment", "hello world", "aaab", "007", "1e3 b"}
@@ -328,6 +333,12 @@ func execOnce(prog *parser.Program, input string, native bool, cancelled bool) r
 		status, err = interp.ExecProgram(prog, cfg)
 	}
 	r := result{out: out.String(), status: status}
+	if strings.Contains(r.out, "sh-err-") {
+		// the child's stderr lines land between the program's own lines at a point the schedule decides
+		ls := strings.Split(r.out, "\n")
+		sort.Strings(ls)
+		r.out = strings.Join(ls, "\n")
+	}
 	if err != nil {
 		r.err = err.Error()
 	}
